@@ -54,4 +54,14 @@ theorem package_state_writes : pkgWrites = [("cachedTypeInfo1", "typeCache")] :=
 theorem narrowing_conversions :
     narrowConvs = [("Stream.uint", "byte", "arg"), ("Stream.readUint", "int", "assign")] := by decide
 
+/-- Exit points of the `Stream` methods. `Raw` has four (`Kind` failed; single byte — re-arms `Kind`;
+    `readFull` failed; header + content), `Bytes` six, `uint` nine …: a new early return — a fast path
+    that answers without consuming the element or without re-arming `Kind` — changes a count. The model
+    (`sRaw`, `sBytes`, `sUint`, `sList`, `sListEnd`) has exactly these paths. -/
+theorem stream_returns :
+    streamReturns = [("Stream.Bytes", 6), ("Stream.Raw", 4), ("Stream.Uint", 1), ("Stream.uint", 9), ("Stream.Bool", 4),
+      ("Stream.List", 3), ("Stream.ListEnd", 3), ("Stream.Decode", 5), ("Stream.Reset", 0), ("Stream.Kind", 2),
+      ("Stream.readKind", 6), ("Stream.readUint", 5), ("Stream.readFull", 2), ("Stream.readByte", 2),
+      ("Stream.willRead", 3)] := by decide
+
 end Rangers.Props.C08
